@@ -58,6 +58,7 @@ def run(rep, tier):
     rep.rule("C16.R1", "K8: option / ini key / environment placeholder / write-back chain with identical spelling; every used option key is registered")
     rep.rule("C16.R2", "K4/K8: handlers: count key == value key; command-line value iff present, configuration value otherwise; invalid values throw")
     rep.rule("C16.R3", "K2: --pika:ini merged before the handlers; every resolved value written back after its handler")
+    rep.rule("C16.R5", "K8 (writer/reader agreement): the stack-size defaults the configuration writes (hexadecimal literals) are parsed by a reader that accepts that notation; a value that does not parse is not replaced silently by a different number")
     rep.rule("C16.R4", "K2: prepend_options puts PIKA_COMMANDLINE_OPTIONS before argv; preliminary parse + handle_arguments precede reconfigure")
 
     PC = facts(rep, lib("command_line_handling", "src/parse_command_line.cpp"), [r"^pika::detail::"])
@@ -295,6 +296,41 @@ def run(rep, tier):
         rep.ok("C16.R4", pre_name(pre), "the defaults feed PIKA_COMMANDLINE_OPTIONS into pika.commandline.prepend_options")
     else:
         rep.bad("C16.R4", "defaults", "", "env-prepend", "the default configuration no longer maps PIKA_COMMANDLINE_OPTIONS to pika.commandline.prepend_options")
+
+    # ---- R5: the reader of pika.stacks.*_size understands what the defaults table writes
+    SS = facts(rep, lib("runtime_configuration", "src/runtime_configuration.cpp"), [r"runtime_configuration::init_(\w+_)?stack_size$"])
+    iss = [f for f in SS.find(r"runtime_configuration::init_stack_size$") if f.parent == -1]
+    if not iss:
+        raise AnalysisBroken("runtime_configuration::init_stack_size not found")
+    iss = iss[0]
+    defaults = []
+    for f in SS.fns:
+        for b, i, ev in f.all_events():
+            if ev.get("k") == "call" and callee_short(ev) == "init_stack_size" and len(ev.get("args", [])) == 3:
+                lits = literals([ev["args"][1]])
+                defaults.append((f, ev, lits[0] if lits else None))
+    ini_defaults = [l for l in dlines if re.match(r"^(small|medium|large|huge)_size = \$\{PIKA_\w+_STACK_SIZE:", l)]
+    if len(defaults) < 4 or len(ini_defaults) < 4:
+        raise AnalysisBroken("stack size defaults not found (init_stack_size callers: %d, ini lines: %d)" % (len(defaults), len(ini_defaults)))
+    hexy = [d for _, _, d in defaults if d and d.lower().startswith("0x")] + [l for l in ini_defaults if re.search(r":0[xX][0-9a-fA-F]+\}", l)]
+    parsers = [(b, i, ev) for b, i, ev in iss.all_events() if ev.get("k") == "call" and
+               re.search(r"(strto(l|ll|ul|ull|imax|umax)|sto(i|l|ll|ul|ull)|from_string|get_entry_as|from_chars|lexical_cast|atoi|atol|atoll)$", callee_short(ev))]
+    if not parsers:
+        raise AnalysisBroken("init_stack_size: no number parser call recognised")
+    for b, i, ev in parsers:
+        cs = callee_short(ev)
+        base = None
+        if re.match(r"^strto", cs) and len(ev.get("args", [])) >= 3:
+            base = T(strip(ev["args"][2]))
+        elif re.match(r"^sto", cs) and len(ev.get("args", [])) >= 3:
+            base = T(strip(ev["args"][2]))
+        accepts_hex = base in ("0", "16")
+        if not hexy or accepts_hex:
+            rep.ok("C16.R5", iss, "init_stack_size parses with %s(base %s): reads the %d hexadecimal defaults the configuration writes" % (cs, base, len(hexy)), sites=len(hexy))
+        else:
+            rep.bad("C16.R5", iss, loc_of(ev), "stack-size-reader", "init_stack_size parses pika.stacks.*_size with %s (base %s), which does not accept the 0x notation that the "
+                    "defaults table itself writes (%s): the resolved configuration value is dropped silently and the runtime uses a different number "
+                    "than the configuration reports" % (cs, base or "10", ", ".join(sorted(set(hexy)))[:160]))
 
 
 def pre_name(pre):
